@@ -946,6 +946,14 @@ impl Sut for S {
         };
         let kind = self.kind;
         let cur = self.cur.clone()?;
+        // a message the harness has never heard of: what it is MEANT to do to the member maps / the limit is unknown, so the ledger
+        // is re-read from storage; the state invariants below (count = stored, capacity, limit monotone, fees, balances) still apply
+        if op == "raw" && self.last_ok {
+            if let Some(g) = self.ghost.as_mut() {
+                g.maps = cur.stored.iter().map(|p| p.iter().copied().collect()).collect();
+                g.limit = cur.limit;
+            }
+        }
         let ghost = self.ghost.clone().unwrap_or_default();
         let bad = |p: &str, w: String| Some((format!("{}/{}/{}", kind.krate(), opname, p), format!("{w} after `{line}`")));
         let as_map = |p: &Pairs| -> Map { p.iter().copied().collect() };
@@ -1092,10 +1100,10 @@ impl Sut for S {
                 }
             }
             // messages that charge a fee or only touch admins / schedule store and remove nothing
-            if matches!(op.as_str(), "inc" | "env" | "raw") && (p.stored != cur.stored || p.num != cur.num) {
+            if matches!(op.as_str(), "inc" | "env") && (p.stored != cur.stored || p.num != cur.num) {
                 return bad("members-changed", format!("stored members / count changed: {:?} ({}) -> {:?} ({})", p.stored, p.num, cur.stored, cur.num));
             }
-            if matches!(op.as_str(), "add" | "rm" | "addstage" | "rmstage" | "env" | "raw") && p.limit != cur.limit {
+            if matches!(op.as_str(), "add" | "rm" | "addstage" | "rmstage" | "env") && p.limit != cur.limit {
                 return bad("limit-changed", format!("member_limit went {} -> {} by a message that is not IncreaseMemberLimit", p.limit, cur.limit));
             }
         }
